@@ -4,10 +4,23 @@ package checks
 
 import (
 	"context"
+	"encoding/hex"
 	"encoding/json"
 	"errors"
 	"fmt"
+	"net"
+	"net/http"
+	"os"
+	"os/exec"
+	"path/filepath"
 	"strings"
+	"sync"
+	"syscall"
+	"time"
+
+	"github.com/ethereum/go-ethereum/crypto"
+	"github.com/gorilla/websocket"
+	"github.com/vipnode/vipnode/v2/pool"
 
 	"github.com/ethereum/go-ethereum/rpc"
 	"github.com/vipnode/vipnode/v2/ethnode"
@@ -294,4 +307,202 @@ func c18AddressFamilies() vh.Unit {
 		}
 		u.Sample("11 x 11 address pairs x same/other port x strict on/off")
 	}}
+}
+
+// The agent *binary*: `vipnode agent --rpc <node> --nodekey <key> [--strict-peers] --min-peers N
+// <pool>` against a node and a pool the harness serves - the recording node behind a real geth-
+// dialect RPC endpoint (HTTP), the scripted pool behind a WebSocket. The first keep-alive round of
+// the started process is judged exactly like the in-process rounds, so the wiring of the flags
+// (strict mode, target, node key) into the agent is part of what is checked.
+func c18AgentBinary() vh.Unit {
+	return vh.Unit{Name: "wire/agent-binary-rounds", Run: func(u *vh.U) {
+		bin := vh.VipnodeBin()
+		if bin == "" {
+			u.R.Infra = "VERIF_VIPNODE_BIN not set"
+			return
+		}
+		dir := vh.Scratch("c18bin-")
+		defer os.RemoveAll(dir)
+		self := vh.Identities()[0]
+		keyfile := filepath.Join(dir, "nodekey")
+		os.WriteFile(keyfile, []byte(hex.EncodeToString(crypto.FromECDSA(self.Key))), 0600)
+		invalids := [][]string{nil, {c18Ids[0]}, {c18Ids[1], "enode://" + c18Ids[4] + "@5.5.5.5:1"}}
+		for _, strict := range []bool{false, true} {
+			for _, target := range []int{0, 3} {
+				for ii, inv := range invalids {
+					states := [4]string{"local+same", "local+otherhost", "local", "absent"}
+					if ii == 2 {
+						states = [4]string{"local", "local+same", "absent", "local+bare"}
+					}
+					r := c18Round{states: states, invalid: inv, strict: strict, target: target, kind: ethnode.Geth, full: false, nHosts: 2, driver: "binary"}
+					if infra := c18AgentBinaryRound(u, bin, dir, keyfile, self, r); infra != "" {
+						u.R.Infra = infra
+						return
+					}
+					if u.NViolations() > 0 {
+						return
+					}
+				}
+			}
+		}
+		u.Sample("vipnode agent binary against a served geth-dialect node and a scripted WebSocket pool: strict on/off x min-peers 0/3 x 3 invalid lists")
+	}}
+}
+
+func c18AgentBinaryRound(u *vh.U, bin, dir, keyfile string, self *vh.Ident, r c18Round) (infra string) {
+	node, sp, _ := c18Setup(r)
+	node.id = self.NodeID
+	var spMu sync.Mutex
+	firstUpdateAnswered := make(chan struct{})
+	var once sync.Once
+	// the node: geth dialect over HTTP
+	rpcSrv := rpc.NewServer()
+	defer rpcSrv.Stop()
+	for ns, svc := range map[string]interface{}{"web3": &c18Web3{node}, "eth": &c18Eth{node}, "net": c18Net{}, "admin": &c18Admin{node}} {
+		if err := rpcSrv.RegisterName(ns, svc); err != nil {
+			return err.Error()
+		}
+	}
+	nodeLn, err := net.Listen("tcp", "127.0.0.1:0")
+	if err != nil {
+		return err.Error()
+	}
+	nodeHTTP := &http.Server{Handler: rpcSrv}
+	go nodeHTTP.Serve(nodeLn)
+	defer nodeHTTP.Close()
+	// the pool: scripted, over WebSocket
+	poolLn, err := net.Listen("tcp", "127.0.0.1:0")
+	if err != nil {
+		return err.Error()
+	}
+	up := websocket.Upgrader{CheckOrigin: func(*http.Request) bool { return true }}
+	poolHTTP := &http.Server{Handler: http.HandlerFunc(func(w http.ResponseWriter, req *http.Request) {
+		conn, err := up.Upgrade(w, req, nil)
+		if err != nil {
+			return
+		}
+		defer conn.Close()
+		for {
+			_, data, err := conn.ReadMessage()
+			if err != nil {
+				return
+			}
+			var m struct {
+				ID     json.RawMessage   `json:"id"`
+				Method string            `json:"method"`
+				Params []json.RawMessage `json:"params"`
+			}
+			if json.Unmarshal(data, &m) != nil || m.Method == "" {
+				continue
+			}
+			var result interface{} = struct{}{}
+			var rerr error
+			spMu.Lock()
+			switch m.Method {
+			case "vipnode_connect":
+				result, rerr = sp.Connect(context.Background(), pool.ConnectRequest{})
+			case "vipnode_update":
+				var q pool.UpdateRequest
+				if len(m.Params) == 4 {
+					json.Unmarshal(m.Params[3], &q)
+				}
+				result, rerr = sp.Update(context.Background(), q)
+			case "vipnode_peer":
+				var q pool.PeerRequest
+				if len(m.Params) == 4 {
+					json.Unmarshal(m.Params[3], &q)
+				}
+				result, rerr = sp.Peer(context.Background(), q)
+			}
+			spMu.Unlock()
+			var reply []byte
+			if rerr != nil {
+				reply, _ = json.Marshal(map[string]interface{}{"jsonrpc": "2.0", "id": m.ID, "error": map[string]interface{}{"code": -32603, "message": rerr.Error()}})
+			} else {
+				reply, _ = json.Marshal(map[string]interface{}{"jsonrpc": "2.0", "id": m.ID, "result": result})
+			}
+			if conn.WriteMessage(websocket.TextMessage, reply) != nil {
+				return
+			}
+			if m.Method == "vipnode_update" {
+				once.Do(func() { close(firstUpdateAnswered) })
+			}
+		}
+	})}
+	go poolHTTP.Serve(poolLn)
+	defer poolHTTP.Close()
+
+	// when is the round complete (the verdict itself is c18RunExec's)
+	expected := map[string]bool{}
+	for _, e := range sp.update.InvalidPeers {
+		id, _, _ := c18Parse(e)
+		expected[id] = true
+	}
+	nActive := len(sp.update.ActivePeers)
+	complete := func() bool {
+		node.mu.Lock()
+		calls := append([]string{}, node.calls...)
+		node.mu.Unlock()
+		spMu.Lock()
+		nReq := len(sp.peerReqs)
+		spMu.Unlock()
+		seen := map[string]bool{}
+		connects := 0
+		for _, c := range calls {
+			seen[c] = true
+			if strings.HasPrefix(c, "connect:") {
+				connects++
+			}
+		}
+		for id := range expected {
+			if !seen["untrust:"+id] || !seen["disconnect:"+id] {
+				return false
+			}
+		}
+		if r.target-nActive > 0 && (nReq == 0 || connects < r.nHosts) {
+			return false
+		}
+		return true
+	}
+	run := func() error {
+		args := []string{"-vv", "agent", "--rpc", "http://" + nodeLn.Addr().String(), "--nodekey", keyfile, "--update-interval=100s", fmt.Sprintf("--min-peers=%d", r.target)}
+		if r.strict {
+			args = append(args, "--strict-peers")
+		}
+		args = append(args, "ws://"+poolLn.Addr().String())
+		cmd := exec.Command(bin, args...)
+		cmd.Env = append(os.Environ(), "HOME="+dir)
+		cmd.SysProcAttr = &syscall.SysProcAttr{Setpgid: true, Pdeathsig: syscall.SIGKILL}
+		var out lockedBuf
+		cmd.Stdout, cmd.Stderr = &out, &out
+		if err := cmd.Start(); err != nil {
+			return err
+		}
+		exited := make(chan struct{})
+		go func() { cmd.Wait(); close(exited) }()
+		defer func() {
+			syscall.Kill(-cmd.Process.Pid, syscall.SIGKILL)
+			<-exited
+		}()
+		select {
+		case <-firstUpdateAnswered:
+		case <-exited:
+			return fmt.Errorf("the agent exited before its first keep-alive: %s", firstN(out.String(), 500))
+		case <-time.After(3 * time.Minute):
+			return fmt.Errorf("no keep-alive from the agent within 3 minutes: %s", firstN(out.String(), 500))
+		}
+		// up to 90 s for what must happen, then a moment more for what must not
+		for i := 0; i < 900 && !complete(); i++ {
+			time.Sleep(100 * time.Millisecond)
+		}
+		time.Sleep(700 * time.Millisecond)
+		return nil
+	}
+	u.R.Evaluations++
+	u.R.States++
+	u.R.Transitions++
+	u.R.Traces++
+	ok := c18RunExec(u, r, node, sp, run)
+	u.Observe(fmt.Sprintf("binary strict=%v target=%d invalid=%d ok=%v", r.strict, r.target, len(r.invalid), ok))
+	return ""
 }
